@@ -129,7 +129,7 @@ func runC09(c *engine.Ctx) {
 	}
 	o := &gen.Opts{T: p, Str: strf, MaxSteps: 4, MaxDepth: 2, Unknown: p.Draw(3, "cfg:unknown") != 0, ScalarStep: true, BareList: true, TopExtras: true,
 		PipeEnv: true, BigMaps: p.Draw(4, "cfg:bigmaps") == 3, Signature: true, TypeKey: true, Aliases: true, NonStrEnv: p.Draw(2, "cfg:nonstr") == 1,
-		Timestamps: p.Draw(3, "cfg:ts") == 2, ShareSubtrees: p.Draw(3, "cfg:share") == 2, TwoKindSteps: p.Draw(2, "cfg:twokind") == 1, DeepNesting: true}
+		Timestamps: p.Draw(3, "cfg:ts") == 2, ShareSubtrees: p.Draw(3, "cfg:share") == 2, TwoKindSteps: p.Draw(2, "cfg:twokind") == 1, DeepNesting: true, PlainKeys: true}
 	doc := o.Pipeline()
 	src, format := gen.RenderMaybeMerged(p, doc, true)
 	c.Ev("doc", format, len(src), tape.HashString(string(src)))
